@@ -122,10 +122,22 @@ def case_of(o, p, l, mfm, ofm, rng=()):
     return c
 
 
-def validate(patterns, listings, cases, report, name, module="Trace_Match", extra_data=None):
-    """TLC decides every case; returns list of verdict strings aligned with `cases`."""
+def validate(patterns, listings, cases, report, name, module="Trace_Match", extra_data=None, batch=250000):
+    """TLC decides every case; returns list of verdict strings aligned with `cases`.
+
+    Large case sets are validated in batches (one TLC run each) holding only the listings they refer to."""
     if not cases:
         return []
+    if len(cases) > batch:
+        out = []
+        for b in range(0, len(cases), batch):
+            part = cases[b:b + batch]
+            used = sorted({c["l"] for c in part})
+            remap = {l: n + 1 for n, l in enumerate(used)}
+            sub = [dict(c, l=remap[c["l"]]) for c in part]
+            out += validate(patterns, [listings[l - 1] for l in used], sub, report, f"{name}.{b // batch}", module,
+                            extra_data, batch=len(sub) + 1)
+        return out
     path = os.path.join(scratch(), f"{name}.cases.json")
     data = {"patterns": patterns, "listings": listings, "cases": cases}
     if extra_data:
